@@ -15,6 +15,9 @@ PROFILE_CFG = re.compile(r"debug_assertions|overflow_checks|cfg\(\s*debug|opt_le
 PROFILE_TXT = re.compile(r"debug_assertions|overflow_checks|\bdebug_assert(_eq|_ne)?!")
 
 
+LOG_MACRO = re.compile(r"^log::(trace|debug|info|warn|error|log)!$")
+
+
 def attr_census(facts):
     """Every attribute mentioning a profile predicate, with its holder."""
     hits = []
@@ -57,6 +60,37 @@ def attr_census(facts):
     return hits
 
 
+def _shape(n):
+    """A node without positions and documentation (what the compiler compiles, not where it stands)."""
+    if isinstance(n, dict):
+        return {k: _shape(v) for k, v in n.items() if k not in ("l", "end", "docs", "_file", "_module") and not k.startswith("_")}
+    if isinstance(n, list):
+        return [_shape(x) for x in n]
+    return n
+
+
+def profile_program_diff(facts):
+    """Items (outside test code) that differ between the program the development profile compiles and the one the release
+    profile compiles, after the normalisation that drops statements which only log (vlib/normalise.py).  Empty: the cfg splits
+    over `debug_assertions` select between programs that are the same up to logging."""
+    on = F.load(debug_assertions=True)
+    off = F.load(debug_assertions=False)
+    F.load()  # constants of the configuration being decided
+    out = []
+    for what, get in (("fn", lambda f_: {k: v.node for k, v in f_.fns.items() if not v.test}), ("const", lambda f_: f_.consts), ("static", lambda f_: f_.statics), ("enum", lambda f_: f_.enums), ("struct", lambda f_: f_.structs), ("type", lambda f_: f_.types)):
+        a, b_ = get(on), get(off)
+        for k in sorted(set(a) | set(b_)):
+            if k not in a or k not in b_:
+                out.append("%s %s exists only %s debug assertions" % (what, k, "with" if k in a else "without"))
+            elif json.dumps(_shape(a[k]), sort_keys=True, default=str) != json.dumps(_shape(b_[k]), sort_keys=True, default=str):
+                out.append("%s %s" % (what, k))
+    ia = sorted(json.dumps(_shape({k: v for k, v in im.items() if k != "items"}), sort_keys=True, default=str) for _, _, im in on.impls)
+    ib = sorted(json.dumps(_shape({k: v for k, v in im.items() if k != "items"}), sort_keys=True, default=str) for _, _, im in off.impls)
+    if ia != ib:
+        out.append("the impl blocks (headers, derive-independent) differ")
+    return out
+
+
 def macro_census(facts):
     hits = []
     for fn in facts.nontest_fns():
@@ -96,7 +130,9 @@ def text_census(facts):
 
 
 def normalise_body(bd):
-    calls = sorted((c["resolved"] or c["callee"], tuple(c["macros"][-1:])) for c in bd["calls"])
+    # what a logging macro of the `log` crate expands to is not behaviour of the library (its arguments, written at the call
+    # site, are: their spans are not inside the macro)
+    calls = sorted((c["resolved"] or c["callee"], tuple(c["macros"][-1:])) for c in bd["calls"] if not (c["macros"] and LOG_MACRO.search(c["macros"][-1])))
     asserts = sorted((a["kind"], a["operands"]) for a in bd["asserts"] if a["kind"] not in c03.UB_CHECKS)
     casts = sorted((x["from"], x["to"]) for x in bd["casts"])
     return calls, asserts, casts
@@ -120,12 +156,13 @@ def run(c, facts, tier):
     macs = macro_census(facts)
     txt = text_census(facts)
     seen = set()
+    pdiff = profile_program_diff(facts) if (attrs or any(not m_[1].startswith("debug_assert") for m_ in macs)) else []
     for holder, a, l in attrs:
         key = (holder, a)
         if key in seen:
             continue
         seen.add(key)
-        c.ob("C17.cfg", holder, a, False, "profile-dependent attribute `#[%s]` in %s: the two builds contain different code here" % (a, holder), witness="nope" if "Positional" in holder else None)
+        c.ob("C17.cfg", holder, a, not pdiff, ("profile-dependent attribute `#[%s]` in %s: the two builds contain different code — %s" % (a, holder, "; ".join(pdiff[:6]))) if pdiff else ("`#[%s]` in %s selects between programs that are the same up to statements that only log: every function, constant and type of the crate is the same in the program either profile compiles" % (a, holder)), witness="nope" if "Positional" in holder else None)
     for holder, mname in macs:
         if mname.startswith("debug_assert"):
             # a debug assertion makes the builds differ only if it can fire: in the debug build it is a panic site of the
@@ -134,7 +171,7 @@ def run(c, facts, tier):
 
             _rep.require(c, facts, "c03", "C17.cfg", holder, mname, lambda o, holder=holder: o["site"] == holder and str(o["instance"]).startswith("core::panicking::"), "%s in %s exists in the debug build only; it is harmless iff it cannot fire — the panic sites of %s (debug build) are decided by the C03 rules" % (mname, holder, holder))
             continue
-        c.ob("C17.cfg", holder, mname, False, "profile-dependent macro %s in %s" % (mname, holder))
+        c.ob("C17.cfg", holder, mname, not pdiff, ("profile-dependent macro %s in %s: the two builds contain different code — %s" % (mname, holder, "; ".join(pdiff[:6]))) if pdiff else ("%s in %s selects between programs that are the same up to statements that only log" % (mname, holder)))
     structured = len(attrs) + len(macs)
     c.ob("C17.cfg", "crate", "textual cross-check agrees with the structured census", (len(txt) == 0) == (structured == 0) or len(txt) <= structured, "structured census: %d attribute(s) + %d macro(s); textual scan: %d line(s) %s" % (len(attrs), len(macs), len(txt), [(p, l) for p, l, _ in txt][:6]), nontrivial=False)
     if structured == 0 and txt:
